@@ -792,12 +792,14 @@ impl<VM: VMBinding> CommonPlan<VM> {
     pub fn clear_side_log_bits(&self) {
         self.immortal.clear_side_log_bits();
         self.los.clear_side_log_bits();
+        self.nonmoving.clear_side_log_bits();
         self.base.clear_side_log_bits();
     }
 
     pub fn set_side_log_bits(&self) {
         self.immortal.set_side_log_bits();
         self.los.set_side_log_bits();
+        self.nonmoving.set_side_log_bits();
         self.base.set_side_log_bits();
     }
 
